@@ -314,15 +314,25 @@ func readBack(text []byte, enc Enc) (string, string, []ObsMesh, []obj.ObjMesh) {
 	return "", "", rd, got
 }
 
-func writeOut(meshes []obj.ObjMesh) (string, string, []byte) {
+// writeOut calls the writer; mtl is its materialFile argument ("" or a file
+// name: the text then starts with mtllib / o lines, which a reader must skip).
+func writeOut(meshes []obj.ObjMesh, mtl string) (string, string, []byte) {
 	var buf bytes.Buffer
 	msg, detail := guard(func() error {
 		if len(meshes) == 1 && meshes[0].Name == "" {
-			return obj.WriteMesh(meshes[0].Mesh, "", &buf)
+			return obj.WriteMesh(meshes[0].Mesh, mtl, &buf)
 		}
-		return obj.WriteMeshes(meshes, "", &buf)
+		return obj.WriteMeshes(meshes, mtl, &buf)
 	})
 	return msg, detail, buf.Bytes()
+}
+
+// mtlFor varies the writer's materialFile configuration with the case number.
+func mtlFor(id int) string {
+	if id%2 == 1 {
+		return "scene.mtl"
+	}
+	return ""
 }
 
 func runWr(id int, c ObjCase, keep string) wrLine {
@@ -341,7 +351,7 @@ func runWr(id int, c ObjCase, keep string) wrLine {
 		ln.Src = append(ln.Src, projSrc(m.Name, m.Mesh, enc))
 	}
 	var text []byte
-	ln.Werr, ln.Note, text = writeOut(meshes)
+	ln.Werr, ln.Note, text = writeOut(meshes, mtlFor(id))
 	if ln.Werr != "" {
 		return ln
 	}
@@ -367,7 +377,7 @@ func runLd(id int, c ObjCase, keep string) ldLine {
 		return ln
 	}
 	var saved []byte
-	ln.Werr, ln.Note, saved = writeOut(got)
+	ln.Werr, ln.Note, saved = writeOut(got, mtlFor(id))
 	if ln.Werr != "" {
 		return ln
 	}
